@@ -23,6 +23,7 @@ func init() {
 func checkC09(c *Ctx) {
 	c09IdentClasses(c)
 	c09RuneError(c)
+	c09HashForm(c)
 	parserRules(c)
 	escapeRules(c)
 }
@@ -148,4 +149,50 @@ func c09RuneError(c *Ctx) {
 		}
 	}
 	c.expect("utf8.rune-error-needs-width", 4)
+}
+
+// c09HashForm: Quote may choose the hash-delimited single-line form #"..."#
+// (WithOptionalHashes) to avoid escaping. The scanner reads `#"""` as the
+// opening of a multi-line string, so the writer must not choose that form for
+// a string that starts with two quote characters: `#""""#` does not scan. The
+// function that picks the form must test for the doubled leading quote on
+// every path that returns a positive hash count.
+func c09HashForm(c *Ctx) {
+	f := c.fn("cue/literal", "(*Form).singleLineHashCount")
+	g := c.graph(f)
+	info := f.Info()
+	// condition nodes that look at a doubled quote at the start of s
+	guards := map[int]bool{}
+	for _, n := range g.Nodes {
+		for _, e := range n.Succs {
+			if e.Cond == nil {
+				continue
+			}
+			ast.Inspect(e.Cond, func(x ast.Node) bool {
+				call, ok := x.(*ast.CallExpr)
+				if !ok || calleeName(info, call) != "strings.HasPrefix" || len(call.Args) != 2 {
+					return true
+				}
+				// the prefix mentions f.quote twice (or the triple quote minus one)
+				if strings.Count(exprString(call.Args[1]), "quote") >= 2 || strings.Contains(exprString(call.Args[1]), "tripleQuote[") {
+					guards[n.ID] = true
+				}
+				return true
+			})
+		}
+	}
+	ok := len(guards) > 0
+	for _, r := range g.returns() {
+		rs := g.Nodes[r].N.(*ast.ReturnStmt)
+		if len(rs.Results) == 1 {
+			if v, isConst := constInt(info, rs.Results[0]); isConst && v == 0 {
+				continue // the escaped form
+			}
+		}
+		if !g.mustPassNode(r, guards) {
+			ok = false
+		}
+	}
+	c.check("quote.hash-form-never-opens-multiline", f.Name, f.Decl.Pos(), ok,
+		"singleLineHashCount must fall back to the escaped form (return 0) for a string that starts with two quote characters: `#\"` followed by `\"\"` is the opening of a multi-line string for the scanner, so `#\"\"\"\"#` (the string of two quotes) does not read back — every path returning a positive hash count must pass a strings.HasPrefix(s, quote+quote) test")
 }
